@@ -66,6 +66,30 @@ func (x *Exec) step(s *State, in ssa.Instruction, prev *ssa.BasicBlock) bool {
 	case *ssa.Slice:
 		x.execSlice(s, in)
 	case *ssa.Phi:
+		if prev == nil && len(s.phiFrom) > 0 {
+			// merged state: select the edge value by arrival guard
+			var r *smt.Term
+			for k := len(s.phiFrom) - 1; k >= 0; k-- {
+				ps := s.phiFrom[k]
+				var ev *smt.Term
+				for i, p := range in.Block().Preds {
+					if p == ps.from {
+						ev = x.toTerm(s, x.val(s, in.Edges[i]), in.Type())
+					}
+				}
+				if ev == nil {
+					x.unsupported("phi edge not found after merge")
+					return true
+				}
+				if r == nil {
+					r = ev
+				} else {
+					r = smt.Ite(ps.guard, ev, r)
+				}
+			}
+			s.env[in] = TermVal{r}
+			return true
+		}
 		for i, p := range in.Block().Preds {
 			if p == prev {
 				s.env[in] = x.val(s, in.Edges[i])
